@@ -47,6 +47,7 @@ def main(argv):
         tier = os.environ.get("VERIF_TIER", "quick")
     vlib.assert_repo_imported()
     ctx = vlib.Ctx(prop, tier, seed)
+    watchdog(ctx, tier)
     try:
         mod = importlib.import_module("props.%s" % prop.lower())
         mod.run(ctx)
@@ -55,6 +56,31 @@ def main(argv):
         ctx.log("HARNESS ERROR:\n" + tb)
         ctx.broken.append("harness error (the check itself no longer runs against this tree): " + tb[-1500:])
     return ctx.finish()
+
+
+def watchdog(ctx, tier):
+    """A check that does not come back is of no use: when the time budget of the tier is used up (a change that makes the
+    implementation loop for ever on some input, typically) the check is reported as broken - with the place where the main
+    thread was - instead of hanging.  VERIF_BUDGET_S overrides the budget (quick 1500 s, thorough 5 h)."""
+    import threading
+    budget = float(os.environ.get("VERIF_BUDGET_S") or (1500 if tier == "quick" else 18000))
+    main_id = threading.main_thread().ident
+
+    def fire():
+        frame = sys._current_frames().get(main_id)
+        where = "".join(traceback.format_stack(frame)[-8:]) if frame is not None else "?"
+        ctx.log("WATCHDOG: the check did not finish within %.0f s" % budget)
+        ctx.broken.append("the check did not finish within its time budget of %.0f s (the implementation, or the harness, does not "
+                          "terminate on some case); the main thread was at:\n%s" % (budget, where[-1800:]))
+        try:
+            rc = ctx.finish()
+        except Exception:
+            rc = 1
+        sys.stdout.flush()
+        os._exit(rc or 1)
+    t = threading.Timer(budget, fire)
+    t.daemon = True
+    t.start()
 
 
 if __name__ == "__main__":
